@@ -373,6 +373,15 @@ impl ReaderRig {
     net::capture_take()
   }
 
+  /// The event loop's pre-emptive ACKNACK timer fires (DPEV_ACKNACK_TIMER_TOKEN):
+  /// MessageReceiver::send_preemptive_acknacks. Returns what the readers sent.
+  pub fn preemptive_acknack_tick(&mut self) -> Vec<net::Sent> {
+    net::capture_begin();
+    net::capture_take();
+    self.mr.send_preemptive_acknacks();
+    net::capture_take()
+  }
+
   /// ACKNACK submessages that arrived for local writers (channel to the event
   /// loop): (source prefix, writer entity id, base, count)
   pub fn drain_acknack_channel(&mut self) -> Vec<([u8; 12], [u8; 4], i64, i32)> {
